@@ -33,11 +33,7 @@ namespace CR.Occ
 theorem tie_traj_state_at (t0 : Int) (n : Nat) (t : Int) :
     Gen.Trajectory_state_at_time_step t0 n t = trajStateAt t0 n t := by
   unfold Gen.Trajectory_state_at_time_step trajStateAt
-  by_cases h : t0 ≤ t ∧ t < t0 + n
-  · simp [h, Id.run, pure]
-  · have : (decide (t0 ≤ t) && decide (t < t0 + ((List.range n).length : Int))) = false := by
-      simp only [List.length_range]
-      by_cases h1 : t0 ≤ t <;> by_cases h2 : t < t0 + n <;> simp_all
-    simp [this, h, Id.run, pure]
+  simp only [List.length_range]
+  by_cases h1 : t0 ≤ t <;> by_cases h2 : t < t0 + n <;> simp [h1, h2, Id.run, pure]
 
 end CR.Occ
